@@ -48,7 +48,7 @@ type Ev struct {
 	A   int    `json:"a,omitempty"`
 	B   int    `json:"b,omitempty"`
 	D   int    `json:"d,omitempty"`   // use: index of the definition
-	Via string `json:"via,omitempty"` // use: eval | evalctx (EvalWithContext with a context that is never cancelled) | host
+	Via string `json:"via,omitempty"` // use: eval | evalctx (EvalWithContext with a context that is never cancelled) | evalset (Eval of `RS = call`, an evaluation that allocates no global slot, then Eval of `RS`) | host
 	X   int    `json:"x,omitempty"`
 }
 
@@ -81,7 +81,7 @@ func newSession() *session {
 	fsys := fstest.MapFS{}
 	s := &session{ip: interp.New(interp.Options{GoPath: "./", SourcecodeFilesystem: fsys}), fsys: fsys, handles: map[int]reflect.Value{}}
 	// a stateless closure the cancelled evaluations of kind callloop call, and one that spins (spinclosure)
-	if _, out := s.eval("var Z = func(x int) int { return x + 1 }\nvar SP = func() int { n := 0; for { n++ }; return n }\nfunc PR(x int) int { return x + 7 }"); out != "" {
+	if _, out := s.eval("var Z = func(x int) int { return x + 1 }\nvar SP = func() int { n := 0; for { n++ }; return n }\nfunc PR(x int) int { return x + 7 }\nvar RS, XA int"); out != "" {
 		panic("session prelude: " + out)
 	}
 	// a stateless function held by the host: calling it tells whether the root frame is stale without changing anything
@@ -241,6 +241,8 @@ func (s *session) define(i int, e Ev) string {
 	}
 	// the host obtains the function value of every definition when it is made
 	handle = useFn(i, e.Kind, e.Var)
+	// a function without parameters and results that uses the definition (for evaluations that allocate no global slot)
+	srcs = append(srcs, fmt.Sprintf("func W%d() { RS = %s(XA) }", i, handle))
 	for _, src := range srcs {
 		if _, out := s.eval(src); out != "" {
 			return out
@@ -304,7 +306,18 @@ func (s *session) use(i int, kind, variant, via string, x int) (out string) {
 	}
 	var v reflect.Value
 	var o string
-	if via == "evalctx" {
+	if via == "evalset" {
+		// evaluations that allocate no new slot in the global frame: an assignment to an existing global, a call of a
+		// function without results; a last evaluation reads the global back
+		// (`XA = x`, then the call of a function without parameters and results that stores its value in RS)
+		if _, o = s.eval(fmt.Sprintf("XA = %d", x)); o != "" {
+			return o
+		}
+		if _, o = s.eval(fmt.Sprintf("W%d()", i)); o != "" {
+			return o
+		}
+		v, o = s.eval("RS")
+	} else if via == "evalctx" {
 		v, o = s.evalCtx(useExpr(i, kind, variant, x))
 	} else {
 		v, o = s.eval(useExpr(i, kind, variant, x))
@@ -646,7 +659,11 @@ func runHistory(h History, cancels bool) (results []string, line string, finalID
 			parts = append(parts, fmt.Sprintf("(def %s %d %d %s)", e.Kind, e.A, e.B, map[bool]string{true: "1", false: "0"}[e.Var == "chan"]))
 		case "use":
 			results = append(results, s.use(e.D, kinds[e.D], variants[e.D], e.Via, e.X))
-			parts = append(parts, fmt.Sprintf("(use %d %s %d)", e.D, e.Via, e.X))
+			via := e.Via
+			if via == "evalset" {
+				via = "eval" // the same event for the model
+			}
+			parts = append(parts, fmt.Sprintf("(use %d %s %d)", e.D, via, e.X))
 		case "cancel":
 			if !cancels {
 				continue
@@ -796,7 +813,7 @@ func genHistory(r *rand.Rand, holds bool) History {
 			h.Evs = append(h.Evs, Ev{Op: "cancel", Kind: "hold"})
 		}
 		d := r.Intn(len(ks))
-		via := []string{"eval", "eval", "evalctx"}[r.Intn(3)]
+		via := []string{"eval", "eval", "evalctx", "evalset"}[r.Intn(4)]
 		if ks[d] == "wrapper" || ((ks[d] == "closure" || ks[d] == "mvfunc") && r.Intn(2) == 0) || (hostCallable(ks[d]) && r.Intn(4) == 0) {
 			via = "host"
 		}
@@ -845,6 +862,8 @@ func regressionHistories() []History {
 			u(2, "eval", 3), u(8, "host", 4), c("expired"), c("expired"), u(6, "host", 1), u(9, "host", 2)}},
 		{Evs: []Ev{d("named", "", 2, 3), d("closure", "maker", 5, 2), d("closure", "nested", 3, 1), d("mvfunc", "", 7, 1), d("wrapper", "chan", 3, 1), d("method", "", 1, 5), c("expired"),
 			u(0, "eval", 1), u(1, "host", 2), u(2, "host", 3), u(3, "host", 4), u(4, "host", 5), u(5, "host", 6), u(0, "host", 7), c("loop"), c("expired"), u(1, "evalctx", 1), u(4, "host", 2), u(3, "host", 3)}},
+		// evaluations that allocate no slot of the global frame right after cancelled evaluations (seeded/C10)
+		{Evs: []Ev{d("named", "", 2, 3), d("closure", "", 5, 2), u(0, "evalset", 1), c("loop"), u(0, "evalset", 2), u(1, "evalset", 3), c("chan"), c("expired"), u(1, "evalset", 4), u(0, "eval", 5)}},
 		// definitions made between two cancellations
 		{Evs: []Ev{d("named", "", 2, 2), c("loop"), d("closure", "map", 3, 3), d("wrapper", "", 1, 6), u(1, "host", 2), c("expired"), u(1, "eval", 2), u(2, "host", 5), u(1, "host", 2)}},
 	}
